@@ -112,4 +112,5 @@ let () =
     let text = if ind = "-" then Json.xserialize v else Json.xserialize_pretty (n_of_int (int_of_string ind)) v in
     "h" ^ hex_of_str text
     | _ -> "BADARGS");
+  register "jscan" (function [t] -> string_of_bool (JsonSpec.no_lone_surrogate_escape (str_of_hex t)) | _ -> "BADARGS");
   register "jisnum" (function [t] -> string_of_bool (Json.is_json_number (str_of_hex t)) | _ -> "BADARGS")
